@@ -459,6 +459,8 @@ class ModelBasedSearcher(StochasticSearcher):
         state["gpmodel_random_state"] = [
             rs.get_state() for rs in self._gpmodel_random_states()
         ]
+        # Number of observations at the most recent refit (refit is skipped if unchanged)
+        state["num_evaluations"] = dict(self.state_transformer._num_evaluations)
         return state
 
     def _gpmodel_random_states(self) -> List[np.random.RandomState]:
@@ -475,6 +477,8 @@ class ModelBasedSearcher(StochasticSearcher):
             self._gpmodel_random_states(), state.get("gpmodel_random_state", [])
         ):
             rs.set_state(rs_state)
+        if "num_evaluations" in state:
+            self.state_transformer._num_evaluations = dict(state["num_evaluations"])
         self._restrict_configurations = state.get("restrict_configurations")
         # The internal random searcher is generated once needed, and it shares its
         # ``random_state`` with this searcher here
